@@ -38,6 +38,11 @@ impl C20 {
             }
         }
         self.rep.max("max:distinct covenant hashes in one view", census.len() as u64);
+        let crowd = census.values().copied().max().unwrap_or(0);
+        self.rep.max("max:coins under one covenant hash", crowd);
+        if crowd > 251 {
+            self.rep.count("views with more than 251 coins under one covenant hash");
+        }
         let mut matched = 0usize;
         for (cov, n) in census.iter() {
             let k = count_key(cov);
@@ -136,11 +141,12 @@ pub fn run(p: &Params) -> Report {
     let mine = p.share(total);
     let mut rng = Rng::new(p.shard_seed() ^ 0xC20);
     let mut mon = C20 { rep: Report::new("C20"), case_seed: 0 };
-    mon.rep.rule = "cases = coin-tree snapshots after every accepted batch, every seal and every next_unsealed of random histories of all transaction kinds (swap rewrite, deposit removal, withdrawal synthesis, faucet markers, proposer rewards incl. the destroy address, dependent batches in every order) on custom networks (TIP-906 from genesis) and on testnet/mainnet histories fabricated just below the activation height and run across it; entries are split by shape into coins and counts and for every covenant hash the count must equal the census, with no orphan or zero count entry. Non-trivial = accepted batch or block with pool settlement/reward; distinct by member hashes".into();
+    mon.rep.rule = "cases = coin-tree snapshots after every accepted batch, every seal and every next_unsealed of random histories of all transaction kinds (swap rewrite, deposit removal, withdrawal synthesis, faucet markers, proposer rewards incl. the destroy address, dependent batches in every order, payments fanning out into ~250 coins at one address so that counts pass 251 and come back) on custom networks (TIP-906 from genesis) and on testnet/mainnet histories fabricated just below the activation height and run across it; entries are split by shape into coins and counts and for every covenant hash the count must equal the census, with no orphan or zero count entry. Non-trivial = accepted batch or block with pool settlement/reward; distinct by member hashes".into();
     if p.only_case.is_none() {
         mon.rep.require("views checked after apply_tx_batch", p.n(1000, 20000));
         mon.rep.require("views checked after seal", p.n(1000, 20000));
         mon.rep.require("activation boundaries crossed", p.n(5, 100));
+        mon.rep.require("views with more than 251 coins under one covenant hash", p.n(50, 1000));
     }
     for case in 0..mine {
         let case_seed = rng.next();
@@ -163,6 +169,10 @@ pub fn run(p: &Params) -> Report {
         w.profile.dependent_permille = 500;
         w.profile.hostile = 8;
         w.profile.degenerate_permille = 70;
+        if matches!(case % 8, 2 | 5 | 6) {
+            // payments fanning out into ~250 coins at one address: counts beyond 250 and back
+            w.profile.crowd_permille = 50;
+        }
         let blocks = 6 + (case % 9) as usize;
         run_history(&mut w, blocks, &mut [&mut mon]);
     }
